@@ -29,7 +29,8 @@ COMPONENTS_STUB = ["kernel TCP (SimNet; connect error texts are script-controlle
 ASSUMPTIONS = ["an error page is recognised by the Server: mitmproxy header and status >= 400",
                "P (peers/h1.py) decides framing"]
 EXPECTED_PROBES = ["error_pages", "marker_in_page", "page_400", "page_502", "page_413_or_body_limit", "connect_error_page",
-                   "head_request_error", "error_after_keepalive_exchange", "error_after_head_exchange"]
+                   "head_request_error", "error_after_keepalive_exchange", "error_after_head_exchange",
+                   "long_error_page"]
 
 MARK = re.compile(rb"zq(\d+)")
 
@@ -48,6 +49,10 @@ def generate(rng, tier):
                      "server_connect_set_error", "bad_version", "origin_garbage"])
     n = r.randrange(100, 999)
     m = mk(r, n)
+    rl = rng.at("c12-long")
+    if rl.random() < 0.2:
+        # peer input of a few KB: the quoted text in the page must be escaped whatever its length
+        m = m * rl.choice([30, 120, 400])
     method = r.choice(["GET", "GET", "POST", "HEAD", "OPTIONS"])
     host = "a.test"
     path = f"/r0/{m}".replace(" ", "%20")
@@ -157,6 +162,8 @@ def oracle(sc, obs):
                              f"rest={rp.rest[:100]!r}"})
         for i, m in enumerate(pages):
             bump("error_pages")
+            if len(m.body) > 2500:
+                bump("long_error_page")
             bump({400: "page_400", 502: "page_502", 413: "page_413_or_body_limit"}.get(m.status, "page_other"))
             if sc["method"] == "HEAD":
                 bump("head_request_error")
